@@ -109,7 +109,7 @@ func prop(t *rapid.T) {
 		}
 		n := len(info.Chain)
 		if n == 63 {
-			ev.Excluded("K1:IsAborted-not-observed-for-chain-of-63")
+			ev.Class("chain:exactly-63-handlers")
 		}
 		if pos >= 0 {
 			ev.Class("abort:" + where)
@@ -140,7 +140,7 @@ func TestProp(t *testing.T) { rapid.Check(t, prop) }
 func propDirect(t *rapid.T) {
 	ev.Case()
 	w := chain.NewWorld()
-	n := rapid.IntRange(1, 62).Draw(t, "chainLen") // 63 = known finding K1, see TestKnown
+	n := rapid.IntRange(1, 63).Draw(t, "chainLen") // 63 handlers = 62 middleware (the registration limit) + main
 	if rapid.IntRange(0, 3).Draw(t, "short") == 0 {
 		n = rapid.IntRange(1, 6).Draw(t, "chainLenShort")
 	}
